@@ -266,3 +266,35 @@ func init() {
 		}
 	}
 }
+
+func init() {
+	debugHooks["apiswitch"] = func(p *ir.Program) {
+		c := &Ctx{P: p, R: report.New("DBG", "quick")}
+		bgpPk := p.Pkg("pkg/packet/bgp")
+		uni := c.decodeInterfaceUniverse("pkg/packet/bgp")
+		for _, fn := range p.FuncsIn("pkg/apiutil") {
+			if fn.Parent() != nil {
+				continue
+			}
+			sets, tags, _ := c.typeSwitchCasesT(fn, func(t types.Type) bool {
+				n, ok := t.(*types.Named)
+				if !ok || n.Obj().Pkg() != bgpPk.Types {
+					return false
+				}
+				_, isI := n.Underlying().(*types.Interface)
+				return isI
+			})
+			for i, set := range sets {
+				in := tags[i].(*types.Named)
+				var missing []string
+				for im := range uni[in] {
+					if !set[im] {
+						missing = append(missing, im.Obj().Name())
+					}
+				}
+				sort.Strings(missing)
+				fmt.Printf("%s over %s: cases=%d default=%v universe=%d missing=%s\n", ir.FuncKey(fn), in.Obj().Name(), len(set), set[nil], len(uni[in]), joinShort(missing, 30))
+			}
+		}
+	}
+}
